@@ -136,19 +136,23 @@ impl VisitorMut for AstVerifier {
                     .trim_end_matches("LL")
                     .to_string();
 
+                // The digits after a `0x` / `0b` prefix (empty if the literal is shorter than that)
+                let digits = text.as_str().get(2..).unwrap_or_default();
                 let number = match text.as_str().parse::<f64>() {
                     Ok(num) => num.to_string(),
                     // Try parsing as Hex (0x)
-                    Err(_) => match i64::from_str_radix(&text.as_str()[2..], 16) {
+                    Err(_) => match i64::from_str_radix(digits, 16) {
                         Ok(num) => num.to_string(),
                         // If in Luau, try parsing as binary (0b)
                         #[cfg(feature = "luau")]
-                        Err(_) => match i64::from_str_radix(&text.as_str()[2..], 2) {
+                        Err(_) => match i64::from_str_radix(digits, 2) {
                             Ok(num) => num.to_string(),
-                            Err(_) => unreachable!(),
+                            // Other spellings (hex floats, hex literals wider than 64 bits, LuaJIT `i` / lowercase
+                            // suffixes): the formatter does not rewrite them, so compare them as written
+                            Err(_) => text.to_string(),
                         },
                         #[cfg(not(feature = "luau"))]
-                        Err(_) => unreachable!(),
+                        Err(_) => text.to_string(),
                     },
                 };
 
